@@ -32,6 +32,10 @@ def cases(draw, tier):
     case['host'] = draw(arith.hosts(min_inputs=1, max_inputs=6 if big else 5, max_gates=10 if big else 7))
     case['host_route'] = draw(arith.gen.routes(case['host']))
     repeat = draw(st.integers(0, 5)) == 0
+    # what the caller hands over: private copies, the host's own live inputs / outputs list, or (two-number adders)
+    # one and the same list object for both numbers
+    case['alias'] = draw(st.sampled_from([None, None, None, 'inputs', 'outputs', 'same_object']))
+    case['hand'] = draw(st.sampled_from(arith.HAND_STYLES))
     if kind in ('add_two_numbers', 'add_two_numbers_shift'):
         # mostly short numbers, sometimes one or both long: lopsided lengths are where shifted adders go wrong
         width = st.one_of(st.integers(1, 6), st.integers(1, 6), st.integers(7, 20))
@@ -138,12 +142,26 @@ def check_sum(case):
         if kind in ('add_two_numbers', 'add_two_numbers_shift'):
             a = arith.resolve_operands(host, case['a'])
             b = arith.resolve_operands(host, case['b'])
+            hs = case.get('hand', 'list')
+            arg_a, arg_b = arith.hand(a, hs), arith.hand(b, hs)
+            cls.add('hand:' + hs)
+            alias = case.get('alias')
+            if alias == 'same_object':
+                b = list(a)
+                arg_a = list(a)
+                arg_b = arg_a
+                cls.add('alias:same_object')
+            elif alias in ('inputs', 'outputs'):
+                live = c.inputs if alias == 'inputs' else c.outputs
+                if 1 <= len(live) <= 20:
+                    a, arg_a = list(live), live
+                    cls.add('alias:live_list')
             if kind == 'add_two_numbers':
-                ret = ar.add_sum_two_numbers(c, list(a), list(b), big_endian=be)
+                ret = ar.add_sum_two_numbers(c, arg_a, arg_b, big_endian=be)
                 shift = 0
             else:
                 shift = case['shift']
-                ret = ar.add_sum_two_numbers_with_shift(c, shift, list(a), list(b), big_endian=be)
+                ret = ar.add_sum_two_numbers_with_shift(c, shift, arg_a, arg_b, big_endian=be)
             res, t, fresh = arith.host_discipline(host, before, c, t0, pats, mask)
             for lab in ret:
                 if lab not in t:
@@ -164,14 +182,26 @@ def check_sum(case):
                     'sample': {'kind': kind, 'host': build.bench_text(host), 'a': a, 'b': b, 'shift': shift, 'big_endian': be}}
 
         ops = arith.resolve_operands(host, case['ops'])
+        arg_ops = None
+        if case.get('alias') in ('inputs', 'outputs'):
+            live = c.inputs if case['alias'] == 'inputs' else c.outputs
+            if 1 <= len(live) <= 40:
+                ops, arg_ops = list(live), live
+                cls.add('alias:live_list')
+                if 'weights' in case:
+                    case = dict(case, weights=(case['weights'] * (len(ops) // max(1, len(case['weights'])) + 1))[:len(ops)])
         n = len(ops)
+
+        def given():
+            return arg_ops if arg_ops is not None else arith.hand(ops, case.get('hand', 'list'))
+
         if kind == 'add_sum_n_bits':
-            ret = ar.add_sum_n_bits(c, list(ops), basis=basis, big_endian=be)
+            ret = ar.add_sum_n_bits(c, given(), basis=basis, big_endian=be)
             pairs = list(enumerate(ret[::-1] if be else ret))
             weights = [0] * n
             ops_eff = ops
         elif kind == 'add_sum_n_bits_easy':
-            ret = ar.add_sum_n_bits_easy(c, list(ops), big_endian=be)
+            ret = ar.add_sum_n_bits_easy(c, given(), big_endian=be)
             pairs = list(enumerate(ret[::-1] if be else ret))
             weights = [0] * n
             basis_name = 'XAIG'
@@ -183,7 +213,7 @@ def check_sum(case):
             if len({lv for lv, _ in pairs}) != len(pairs):
                 raise Violation('levels_not_distinct', f'{kind}: levels {[lv for lv, _ in pairs]}')
         else:  # add_pow2_m1
-            ret = ar.add_sum_pow2_m1(c, list(ops), big_endian=be, basis=basis)
+            ret = ar.add_sum_pow2_m1(c, given(), big_endian=be, basis=basis)
             pairs = [(k, lab) for k, group in enumerate(ret) for lab in group]
             weights = [0] * n
         res, t, fresh = arith.host_discipline(host, before, c, t0, pats, mask)
@@ -225,5 +255,6 @@ SPEC = {
     'assumptions': ['reference tables from vlib/refsem.py; uuid4 replaced by a seeded stream'],
     'subs': [Sub('sum', cases, check_sum, {'quick': 1600, 'thorough': 125000})],
     'required_classes': {'sum': KINDS + ['basis:AIG/str', 'basis:AIG/enum', 'basis:XAIG/str', 'internal_operands',
-                                         'repeated_operands', 'shift_vs_len:gt', 'shift_vs_len:eq', 'be', 'le']},
+                                         'repeated_operands', 'shift_vs_len:gt', 'shift_vs_len:eq', 'be', 'le',
+                                         'alias:live_list', 'alias:same_object']},
 }
